@@ -24,6 +24,7 @@ def run(ctx, rep):
     compiler_rules.rule_variable_resolution(ctx, rep, "C05-R9")
     hashorder.rule_frame_positions(ctx, rep, "C05-R10")
     hashorder.rule_parallel_tables(ctx, rep, "C05-R11")
+    compiler_rules.rule_memo_keys(ctx, rep, "C05-R12")
     rep.undecided += [
         "equality of the observable log with ECMAScript's for all programs (needs a reference semantics and execution)",
         "correctness among equally deep jump targets beyond the placement rule C05-R2",
